@@ -107,7 +107,7 @@ def run(F, chk):
             allow_drop=[(lambda p, ty: ty == 'adlt::dlt::DltMessage', 'plugin_false', 'a plugin returned false for this message')],
             excuse_edges=[(r'adlt::plugins::plugin::Plugin::process_msg$', 0, 'plugin_false')],
             per_msg_facts=['plugin_false'])
-        lin.run_linearity(b, spec, E4, L2, L7, min_recv=1, min_send=1)
+        lin.run_linearity(b, spec, E4, L2, L7, min_recv=1, min_send=1, F=F)
         effects.check_may_write(F, E1, b.path, set().union(*ALLOWED.values()) | DEFAULT_ALLOWED, what='the plugin stage')
 
 
